@@ -211,6 +211,19 @@ Fixpoint crun (wbp wbr wbs : bool) (s : cstate) (ops : list cop) : option cstate
   | o :: t => match cstep wbp wbr wbs s o with Some s' => crun wbp wbr wbs s' t | None => None end
   end.
 
+(** A growth interrupted by a panic of user code ([Vec::clone_from] reserved room in the column being
+    cloned into and moved it, then a component's [Clone] panicked): pointer and capacity of the moved
+    column reach the archetype only if something writes them back while unwinding — read off the source,
+    [fact_clone_from_writes_back_on_unwind]; the archetype holds no rows meanwhile (length 0: the values
+    in the block are leaked, the block itself stays owned by the column). *)
+Definition cgrow_unwound (wbu : bool) (s : cstate) (i add want : nat) : option cstate :=
+  match cstep true wbu true s (CReserve i add want) with
+  | Some s1 => cstep true true true s1 (CSetLen i 0)
+  | None => None
+  end.
+Definition cgrow_unwound_src (s : cstate) (i add want : nat) : option cstate :=
+  cgrow_unwound fact_clone_from_writes_back_on_unwind s i add want.
+
 Definition c_alloc (c : col) : bool := allocated (c_zst c) (c_raw c).
 
 (** every column is what its raw parts say; no two columns share a block; every block has an owner *)
